@@ -46,6 +46,7 @@ def scenarios(rep, tier, seed):
     scns += S.extreme_unit_scenarios(random.Random(seed * 1000003 + 1515), 120 if thorough else 30, kind="semi", nq=2, nu=3)
     scns += S.prefile_scenarios(random.Random(seed * 1000003 + 1516), 90 if thorough else 24, kind="semi", nq=2, nu=2)
     scns += S.mixed_dtype_scenarios(random.Random(seed * 1000003 + 1517), 120 if thorough else 30, kind="semi", nq=2, nu=3)
+    scns += S.bootstrap_scenarios(random.Random(seed * 1000003 + 1518), 80 if thorough else 20, kind="semi", nq=2)
     return scns
 
 
